@@ -232,11 +232,14 @@ PROPS['C20'] = dict(
 )
 
 PROPS['C15'] = dict(
-    id='C15', domains=['res'], no_model={'res': True},
+    id='C15', domains=['res'],
     n=dict(quick=dict(res=1500), thorough=dict(res=60000)),
-    theorems=[('Properties.C15', [])],
+    theorems=[('Properties.C15', ['C15_builder_and_built_record_release_the_spill_file', 'C15_parsed_record_releases_the_spill_file_on_every_fault', 'C15_reader_descriptor_is_released', 'C15_temp_file_only_when_memory_is_full'])],
     kinds={'panic', 'leak'},
-    rule='TODO', level_text='TODO', level_note='TODO',
+    rule='res: scenarios builder-close, build-close, failed strict Build, parse-close, parse with a read fault at a seeded position (half of them late in the content or in the end-of-record marker), revisit+merge derivations, file reader (valid and negative offset), marshal to a failing writer; generic and HTTP content of sizes 0, 1, threshold-1, threshold, threshold+1, 2x, 3x+7; after every step the private temp directory and /proc/self/fd are counted (garbage-collector finalizers flushed before the baseline); executable statement: after closing everything returned, no temp file and no extra descriptor',
+    level_text='PARTIAL / thin model: the theorems are about an ownership ledger (which spill buffer owns a temp file, which Close releases it, on success and on every injected fault): closing whatever Build / Unmarshal / NewWarcFileReader returned empties the ledger for every size, threshold and fault position; a buffer owns a temp file only once its memory part is full (from the C14 invariant). Whether the code follows that ownership on every path is observed, not proved: the harness counts temp files and descriptors after every step of every scenario, and the model ledger is compared with those counts for the builder and parser scenarios. The descriptor leak on an invalid reader offset was found here and repaired.',
+    level_note='Trusted: Coq kernel, extraction, harness; /proc/self/fd and the directory listing as observations of the OS state. The ownership model is hand-written from the code (builder content buffer, block Cache buffer, reader file); it does not model the garbage collector (os.File finalizers would eventually close leaked descriptors).',
+    assumptions=[],
 )
 
 PROPS['C09'] = dict(
